@@ -116,6 +116,24 @@ def run_check(tier, seed):
         ck.inconclusive.append('record store of write(): %s' % e)
     # ---- (iii) the C header, through CBMC
     cbmc_header(ck, prog, pr, fact)
+    # ---- the magic number a file must carry to be taken for a segment: both documented words (ShmHeader::is_valid from its MIR)
+    try:
+        m0, m1, sg, vr, gn = [z3.Int(n) for n in ('hv_magic0', 'hv_magic1', 'hv_segsize', 'hv_version', 'hv_generation')]
+        from .segment_files import OpenModel
+        exv = Exec(prog, env=OpenModel(prog).env())
+        stv = State(); stv.mem[(0, 'h')] = Struct([Struct([m0, m1]), sg, vr, gn])
+        fv = prog.find1('is_valid', self_ty='ShmHeader')
+        pr.add(m0 >= 0, m0 < 2 ** 32, m1 >= 0, m1 < 2 ** 32, sg >= 0, sg < 2 ** 32, vr >= 0, vr < 65536, gn >= 0, gn < 65536)
+        want_magic = spec.get('magic_words') or [0x414D5A4E, 0x43420200]
+        for i, o in enumerate(exv.run(fv, [Ref(0, 'h')], stv)):
+            if o.kind != 'return':
+                continue
+            pr.add(exv.side)
+            okc = (o.value.disc() == 0) if ('Ok' in o.value.p and 'Err' in o.value.p) else z3.BoolVal('Ok' in o.value.p)
+            pr.prove('ShmHeader::is_valid path %d: a header is accepted only with both words of the documented magic number (0x%08X 0x%08X)' % (i, want_magic[0], want_magic[1]),
+                     z3.And(o.state.pcond(), okc), z3.And(m0 == want_magic[0], m1 == want_magic[1]))
+    except EngineError as e:
+        ck.inconclusive.append('ShmHeader::is_valid not executable: %s' % e)
     # ---- (iv) the two libraries compute the same thing
     equivalence(ck, prog, pr, seed, fact)
     ck.absorb(pr)
@@ -272,7 +290,17 @@ def equivalence(ck, prog, pr, seed, fact):
     # Rust
     f_now_r = prog.find1('now', self_ty='ClockBoundClient', crate='clock_bound_client')
     exr = Exec(prog, env=mk_env('r'), opaque_calls=oc + [r'TimeSpec as From<timespec>>::from$'])
-    st = State(); st.mem[(0, 'cl')] = Struct([Opaque('reader')])
+    # the Rust client object: its reader, and any further state the library keeps between calls (arbitrary: whatever earlier calls left)
+    rnames = prog.struct_fields.get('ClockBoundClient') or ['reader']
+    rtys = prog.struct_field_types.get('ClockBoundClient') or []
+    rvals = []
+    for i, n in enumerate(rnames):
+        if n == 'reader' or i == 0 and len(rnames) == 1:
+            rvals.append(Opaque('reader'))
+        else:
+            sv = symbolic_of_type(exr, rtys[i], 'client_' + n) if i < len(rtys) else None
+            rvals.append(sv if sv is not None else Opaque('client_' + n))
+    st = State(); st.mem[(0, 'cl')] = Struct(rvals)
     try:
         outs_r = [o for o in exr.run(f_now_r, [Ref(0, 'cl')], st) if o.kind == 'return']
     except EngineError as e:
@@ -403,7 +431,7 @@ def open_equivalence(ck, prog, pr, oc, shm_err, fields_c, fields_r):
     return bad_seq
 
 
-def wrappers_for_c14(ck, prog, seed):
+def wrappers_for_c14(ck, prog, seed, key='wrapper-error-sticks'):
     """C14 for the two client libraries that wrap ClockErrorBound::now(): each returns exactly now()'s interval / status or its error
     (converted kind and errno), for arbitrary state left in the C context by earlier calls; natively: a failing call followed, on the
     same context, by a call that must succeed"""
@@ -420,20 +448,26 @@ def wrappers_for_c14(ck, prog, seed):
     bad = []
     res = {}
     for s2, what in (('none', 'nothing'), ('breachthenok', 'both were asked once while the monotonic clock read 2 s before as-of (causality breach), then time moved past as-of'),
-                     ('malformedthenok', 'both were asked once on a record with a drift of 1e9 ppb (malformed), then a well-formed record was published')):
+                     ('malformedthenok', 'both were asked once on a record with a drift of 1e9 ppb (malformed), then a well-formed record was published'),
+                     ('unknownthensync', 'both were asked once on the daemon\'s placeholder record (Unknown), then a synchronised record with a bound of 1 s was published')):
         o = rp.ask('abi2 ' + s2)
         res['abi2 ' + s2] = o
         ck.cov['evaluations'] += 1
         f = dict(x.split('=', 1) for x in o.split()[1:] if '=' in x)
-        exp_ok = 'now_ok:1699999999.999994000:1700000000.6000:1'
         for who in ('rust', 'c'):
             if not o.startswith('ok') or not (f.get(who) or '').startswith('now_ok'):
                 bad.append('both clients opened on a consistent segment, %s happened, then a call with the monotonic clock 1 s after as-of on a well-formed record: the %s returns %s instead of an interval'
                            % (what, 'C library' if who == 'c' else 'Rust client', f.get(who, o)[:80]))
+        # the answer is a function of the record and the clock readings of THIS call: earliest = realtime - (bound + drift * age), symmetric
+        want = {'unknownthensync': 'now_ok:1699999998.999999000:1700000001.1000:1'}.get(s2, 'now_ok:1699999999.999994000:1700000000.6000:1')
+        for who in ('rust', 'c'):
+            if o.startswith('ok') and (f.get(who) or '').startswith('now_ok') and f.get(who) != want:
+                bad.append('both clients opened on a consistent segment, %s; the second call (realtime 1700000000 s, record aged 1 s at 1000 ppb) must return %s; the %s returns %s: the interval depends on what an earlier call on the same object returned'
+                           % (what, want[7:], 'C library' if who == 'c' else 'Rust client', (f.get(who) or '')[7:]))
     rp.close()
     ck.cov['native_wrapper_runs'] = res
     if bad:
-        ck.violation('wrapper-error-sticks', bad[0], {'cmd': 'abi2', 'native': res, 'all': bad})
+        ck.violation(key, bad[0], {'cmd': 'abi2', 'native': res, 'all': bad})
         pr.handled = {n for n, m in pr.failed}
     ck.absorb(pr, 'wrappers: ')
 
@@ -472,6 +506,14 @@ def native_compare(ck, spec):
         f = dict(x.split('=', 1) for x in o.split()[1:] if '=' in x)
         if f.get('rust') != f.get('c'):
             bad.append('scenario "%s": Rust client -> %s, C library -> %s' % (s, f.get('rust'), f.get('c')))
+    # a file whose magic number differs from the documented one in its SECOND word only: not a segment of this layout, both libraries refuse it
+    o = rp.ask('abi badmagic2')
+    res['badmagic2'] = o
+    f = dict(x.split('=', 1) for x in o.split()[1:] if '=' in x)
+    for who in ('rust', 'c'):
+        if o.startswith('ok') and not (f.get(who) or '').startswith('open_err:kind=2'):
+            bad.append('a file with the magic number 4E5A4D41 00024240 (second word differs from the documented 4E5A4D41 00024243 in one byte) and an otherwise valid header: the %s answers %s, documented: SEGMENT_NOT_INITIALIZED'
+                       % ('C library' if who == 'c' else 'Rust client', f.get(who)))
     # both libraries opened first, the segment changed afterwards (update in flight / wiped by a restarting daemon), then now()
     # a caller that reuses one clockbound_err (it holds SYSCALL / ENOENT from an earlier attempt) and opens a file that is there but not valid
     for s3 in ('dirty:short', 'dirty:zerogen', 'dirty:smallseg', 'dirty:badmagic'):
